@@ -408,6 +408,8 @@ def e2e_configs(tier):
              writes_per_chunk=2, min_write_sz=500, spill_sz=500, band_chunk=1, scheduler="threads:3"),
         dict(base, H=15, W=17, dtype="float32", chunks=(20, 9), blocksize=[(32, 16), 32, 16], compression="none",
              writes_per_chunk=2, min_write_sz=64, spill_sz=256),
+        # every lossless codec the writer accepts, with its tuning options (writer spelling and GDAL spelling)
+        *codec_configs(base),
         # irregular source chunking whose largest chunk equals the tile size (chunksize == tile, no rechunk before dec5ed6)
         dict(base, H=100, W=72, chunks=((32, 18, 32, 18), (32, 32, 8)), blocksize=[32, 16]),
         dict(base, H=64, W=64, axis="SYX", S=2, dtype="uint8", chunks=((32, 16, 16), (16, 32, 16)), blocksize=[32], band_chunk=1),
@@ -454,6 +456,9 @@ def e2e_configs(tier):
         c["compression"] = rng.choice(["deflate", "deflate", "zstd", "none", "lzw"])
         if rng.random() < 0.3 and c["compression"] != "none":    # tifffile rejects a predictor without compression
             c["predictor"] = rng.choice([False, True])
+        if rng.random() < 0.35:
+            c.pop("predictor", None)
+            random_codec(rng, c)
         if rng.random() < 0.3:
             c["nodata"] = rng.choice([0, 1, 255 if np.dtype(c["dtype"]).kind == "u" else -3])
             if np.dtype(c["dtype"]).kind == "f" and rng.random() < 0.4:
@@ -482,6 +487,51 @@ def e2e_configs(tier):
     for i, c in enumerate(cfgs):
         c["name"] = f"e{i:03d}"
     return cfgs
+
+
+# (compression, dtypes, options) - all lossless: independent readers must return the exact pixels.  Left out because
+# the UNCHANGED tree or a reader cannot do them: PACKBITS with a predictor (GDAL ignores the predictor), JPEG (lossy),
+# WEBP for anything but 3/4-sample uint8, JPEGXL/PNG/JPEG2000/JPEGXR (no GDAL codec here), LERC with max_z_error > 0 (lossy).
+CODECS = [
+    ("deflate", ["uint8", "uint16", "int32", "float32"], [dict(level=9), dict(kw=dict(zlevel=1)), dict(kw=dict(zlevel=9), predictor=True),
+                                                          dict(compressionargs=dict(level=4)), dict(predictor=False)]),
+    ("adobe_deflate", ["int16", "float64"], [dict(level=6), dict(predictor=True)]),
+    ("zstd", ["uint8", "int16", "float32"], [dict(level=19), dict(kw=dict(zstd_level=3)), dict(kw=dict(zstd_level=15), predictor=True)]),
+    ("lzma", ["uint16", "float32"], [dict(level=3), dict(predictor=True), dict(predictor=False)]),
+    ("lzw", ["uint8", "uint16", "float32"], [dict(), dict(predictor=True)]),
+    ("packbits", ["uint8", "int16"], [dict()]),
+    ("none", ["uint16", "float64"], [dict(), dict(level=5)]),
+    ("lerc", ["uint8", "uint16", "int16", "float32"], [dict(), dict(kw=dict(max_z_error=0)), dict(level=0)]),
+    ("lerc_deflate", ["uint8", "uint16", "int16", "float32"], [dict(), dict(kw=dict(zlevel=9)), dict(kw=dict(zlevel=1, max_z_error=0)),
+                                                             dict(level=0, kw=dict(zlevel=6))]),
+    ("lerc_zstd", ["uint16", "int16", "float64"], [dict(), dict(kw=dict(zstd_level=9)), dict(kw=dict(zstd_level=19, max_z_error=0))]),
+    ("webp", ["uint8"], [dict(axis="YXS", S=3, compressionargs=dict(lossless=True)), dict(axis="YXS", S=4, compressionargs=dict(lossless=True)),
+                         dict(axis="YXS", S=3, kw=dict(webp_level=100))]),
+]
+
+
+def codec_configs(base, rng=None, n=None):
+    """one configuration per (codec, option set), dtypes cycled; a random sample of n when rng is given"""
+    out = []
+    for comp, dtypes, opts in CODECS:
+        for i, o in enumerate(opts):
+            c = dict(base, H=40, W=50, compression=comp, dtype=dtypes[i % len(dtypes)])
+            c.update({k: (dict(v) if isinstance(v, dict) else v) for k, v in o.items()})
+            out.append(c)
+    if rng is not None:
+        out = rng.sample(out, n)
+    return out
+
+
+def random_codec(rng, c):
+    """codec + options for a random configuration (respecting the axis / dtype it already has)"""
+    comp, dtypes, opts = rng.choice([x for x in CODECS if x[0] != "webp"])
+    o = rng.choice(opts)
+    c["compression"] = comp
+    if c["dtype"] not in dtypes and comp.startswith("lerc") and c["dtype"] in ("int8", "int32"):
+        c["dtype"] = rng.choice(dtypes)
+    for k, v in o.items():
+        c[k] = dict(v) if isinstance(v, dict) else v
 
 
 def irregular_chunks(rng, dim):
@@ -758,7 +808,10 @@ def check_file(cfg, rec):
         else:
             padv = np.concatenate([arr[:, H:, :].ravel(), arr[:, :H, W:].ravel()])
             fillv = np.asarray(fill).astype(pix.dtype)
-            if padv.size and not (np.all(np.isnan(padv)) if (pix.dtype.kind == "f" and np.isnan(fillv)) else np.all(padv == fillv)):
+            nan_fill = pix.dtype.kind == "f" and np.isnan(fillv)
+            if nan_fill and name == "tifffile" and str(cfg.get("compression", "")).lower().startswith("lerc"):
+                padv = np.where(padv == 0, np.nan, padv)        # LERC: NaN is an invalid-pixel mask, tifffile returns the masked 0
+            if padv.size and not (np.all(np.isnan(padv)) if nan_fill else np.all(padv == fillv)):
                 msgs.append(f"{name}: padding is not the fill value {fill}")
     gb = rec["gbox"]
     want_tr = tuple(gb.transform)[:6]
@@ -781,6 +834,10 @@ def check_file(cfg, rec):
             ok_t = ok_t.reshape(hk, wk, S).transpose(2, 0, 1)
         else:
             ok_t = ok_t.reshape(-1, hk, wk)
+        if ok_t.shape == ok_r.shape and str(cfg.get("compression", "")).lower().startswith("lerc") and pix.dtype.kind == "f":
+            # LERC stores NaN as an invalid-pixel mask: GDAL returns NaN there, tifffile the masked value 0
+            keep = ~np.isnan(ok_r)
+            ok_t, ok_r = ok_t[keep], ok_r[keep]
         if ok_t.shape != ok_r.shape or not np.array_equal(ok_t, ok_r, equal_nan=True):
             msgs.append(f"overview {k}: tifffile and rasterio decode differently")
     return not msgs, "; ".join(msgs[:4]) or f"{len(observed)} tiles, {len(ifds)} IFDs, {len(data)} bytes", ifds
